@@ -7,6 +7,7 @@
 From Coq Require Import ZArith List Bool Sorted Permutation.
 From Centro Require Import Model.Median Spec.MedianSpec Proofs.MedianCheck Proofs.MedianHist
   Proofs.MedianGeom Proofs.MedianRank Proofs.MedianRefute.
+From Centro Require Model.VecC18 Model.RankC18.
 Import ListNotations.
 Open Scope Z_scope.
 
@@ -193,18 +194,31 @@ Theorem C07_wrapper_exact : forall rows cols data mask radius percent o8,
 Proof. exact wrapper_exact. Qed.
 Print Assumptions C07_wrapper_exact.
 
-(* the model's wrapper is that composition on the ranked path ... *)
-Theorem C07_wrapper_model_shape : forall v intlike data mask radius percent o,
-  wrapper v intlike data mask radius percent = WOut true o ->
+(* the model's wrapper is that composition on the ranked path with at most 255 distinct values ... *)
+Theorem C07_wrapper_model_shape : forall v intlike orders data mask radius percent o,
   let u := sort_u (masked_vals data mask) in
-  (length u <= 255)%nat /\ o = map (map (unrk u)) (kernel v (rank_image u data mask) mask radius percent).
+  (length u <= 255)%nat ->
+  wrapper v intlike orders data mask radius percent = WOut true o ->
+  o = map (map (unrk u)) (kernel v (rank_image u data mask) mask radius percent).
 Proof. exact wrapper_model_shape. Qed.
 Print Assumptions C07_wrapper_model_shape.
 
+(* ... with more values it runs b18's proven model of rank_order(data[mask], nbins=255) (C18:
+   rank_order_bins_correct — monotone merge to <= 255 levels, table entries are input values) on
+   the argsort orders recorded from the implementation ... *)
+Theorem C07_wrapper_model_merged : forall v intlike orders data mask radius percent o,
+  let mv := masked_vals data mask in
+  (255 < length (sort_u mv))%nat ->
+  wrapper v intlike orders data mask radius percent = WOut true o ->
+  exists r tr, RankC18.rank_order_bins_with (RankC18.replay_oracle orders) (VecC18.argsort mv) mv 255 = Some (r, tr) /\
+    o = map (map (fun x => nth (Z.to_nat x) tr 0)) (kernel v (fill_img mask (map Z.of_nat r)) mask radius percent).
+Proof. exact wrapper_model_merged. Qed.
+Print Assumptions C07_wrapper_model_merged.
+
 (* ... and the kernel on the masked image itself on the direct path, which is taken exactly when
    the dtype is integer and every MASKED pixel lies in 0..255 (values outside the mask play no role) *)
-Theorem C07_wrapper_model_direct : forall v intlike data mask radius percent o,
-  wrapper v intlike data mask radius percent = WOut false o ->
+Theorem C07_wrapper_model_direct : forall v intlike orders data mask radius percent o,
+  wrapper v intlike orders data mask radius percent = WOut false o ->
   o = data /\ forallb (forallb negb) mask = true \/
   intlike = true /\ Forall (fun x => 0 <= x <= 255) (masked_vals data mask) /\
   o = kernel v (map_img (fun d (m : bool) => if m then d else 0) data mask) mask radius percent.
